@@ -82,12 +82,20 @@ def judge(xml, obs, cfg, encrypted=False):
 
 
 def evaluate(task):
-    """task = (label, xml, encrypted, cfg-list) -> list of per-cfg outcomes"""
-    label, xml, encrypted, cfgs = task
+    """task = (label, xml, encrypted, cfg-list[, prime_xml]) -> list of per-cfg outcomes.  With prime_xml the same SP
+    first accepts that genuine document (non-initial state: same IDs already seen and verified)."""
+    label, xml, encrypted, cfgs = task[:4]
+    prime = task[4] if len(task) > 4 else None
     out = []
     for cfg in cfgs:
         env.Clock.set(env.BASE)
         env.Seam.reset()
+        if prime is not None:
+            _sp.pop(cfg, None)
+            first = oracle.accept_response(sp_for(cfg), prime)
+            if not first['accept']:
+                out.append({'cfg': list(cfg), 'accept': False, 'exc': 'PRIMING-REJECTED', 'why': None, 'subject': None})
+                continue
         obs = oracle.accept_response(sp_for(cfg), xml)
         why = None
         if obs['accept']:
@@ -251,7 +259,7 @@ def build_tasks(ctx):
     tasks = []   # (witness-coords, task)
     seen = set()
 
-    def add(coords, xml, enc, cfgs):
+    def add(coords, xml, enc, cfgs, prime=None):
         if xml is None:
             return
         x = xml
@@ -260,11 +268,15 @@ def build_tasks(ctx):
                 x = forge.encrypt_assertions(xml, 'spXenc1')
             except Exception:
                 return
-        k = (xml, enc)
+        k = (xml, enc, prime is not None)
         if k in seen:
             return
         seen.add(k)
-        tasks.append((coords, (coords.get('kind'), x, enc, cfgs)))
+        if prime is not None:
+            coords = dict(coords, primed=True)
+            tasks.append((coords, (coords.get('kind'), x, enc, cfgs, prime)))
+        else:
+            tasks.append((coords, (coords.get('kind'), x, enc, cfgs)))
 
     algs = list(forge.SIG_ALGS) if ctx.thorough else ['sha256']
     starts = {}
@@ -285,6 +297,9 @@ def build_tasks(ctx):
         for coords, xml in grammar(starts[(kind, 'sha256')], target):
             coords['start'] = kind
             add(coords, xml, False, cf)
+            # non-initial state: the SP has just accepted the genuine document these shapes are derived from
+            if ctx.thorough or (coords['s2'] is None and coords['tid'] == 'fresh'):
+                add(coords, xml, False, cf[:1], prime=starts[(kind, 'sha256')])
     if ctx.thorough:
         for coords, xml in grammar(starts[('A', 'sha256')], 'Assertion'):
             coords['start'] = 'A'
@@ -299,6 +314,8 @@ def build_tasks(ctx):
         d1[(kind, alg)] = ops
         for o in ops:
             add(dict(kind='edit', start=kind, alg=alg, enc=False, ops=o), edits.apply_all(xml, o), False, cfgs_for(kind))
+            if o[0][0] in ('text', 'attr') and alg == 'sha256':
+                add(dict(kind='edit', start=kind, alg=alg, enc=False, ops=o), edits.apply_all(xml, o), False, cfgs_for(kind)[:1], prime=xml)
     for o in d1[('A', 'sha256')]:
         add(dict(kind='edit', start='A', alg='sha256', enc=True, ops=o), edits.apply_all(starts[('A', 'sha256')], o), True, cfgs_for('A'))
     # 3. depth-2 XSW family: structural op on Assertion/Response/Signature, then a follow-up
@@ -343,6 +360,8 @@ def run(ctx):
             hist[k] = hist.get(k, 0) + 1
             if o['accept']:
                 accepted += 1
+            if o['exc'] == 'PRIMING-REJECTED':
+                starts_ok = False
             if coords['kind'] == 'start':
                 if not o['accept']:
                     starts_ok = False
@@ -391,5 +410,8 @@ def replay(ctx, w):
     enc = bool(w.get('enc'))
     if enc:
         doc = forge.encrypt_assertions(doc, 'spXenc1')
-    out = evaluate((w['kind'], doc, enc, [tuple(w['cfg'])]))[0]
+    t = (w['kind'], doc, enc, [tuple(w['cfg'])])
+    if w.get('primed'):
+        t = t + (xml,)
+    out = evaluate(t)[0]
     return {'violation': bool(out['why']), 'observed': out}
